@@ -8,7 +8,7 @@
    transferred to R by the ring homomorphism K -> R (Base/KtoR.v). *)
 From Coq Require Import Reals ZArith QArith List String Bool.
 From Verif Require Import Scalar RInst KField KtoR Quat QuatAlg GroupK Groups GroupFacts
-  SymDot SymDotR SymDotK TwoSymAll.
+  SymDot SymDotR SymDotK TwoSymAll SymDotCor GroupReal SymDotGroups CrossProofs.
 Local Open Scope R_scope.
 
 (* the algebraic heart, for ALL quaternions: <M, ~g2*g1> = Re (g2 * M * ~g1) *)
@@ -59,6 +59,55 @@ Proof.
   unfold two_sym_ok in H. apply String.eqb_neq in Hne. rewrite Hne in H. exact H.
 Qed.
 Print Assumptions C04_two_symmetries.
+
+(* the value is symmetric in its arguments (both symmetries swapped with them) *)
+Theorem C04_symmetric : forall (G1 G2 : list (rot (T:=R))) (O1 O2 : quat (T:=R)),
+  brute_dot ROps G1 G2 O1 O2 = brute_dot ROps G2 G1 O2 O1.
+Proof. exact brute_dot_symmetric. Qed.
+Print Assumptions C04_symmetric.
+
+(* ... unchanged when either argument is replaced by a symmetry-equivalent one g*O
+   (general statement for lists closed under right multiplication by g and ~g) ... *)
+Theorem C04_invariant_under_equivalents : forall (G1 G2 : list (rot (T:=R))) (g O1 O2 : quat (T:=R)),
+  qnorm2 ROps g = 1 -> right_closed G1 g -> right_closed G1 (qconj ROps g) ->
+  brute_dot ROps G1 G2 (qmul ROps g O1) O2 = brute_dot ROps G1 G2 O1 O2.
+Proof. exact brute_dot_left_equiv. Qed.
+Print Assumptions C04_invariant_under_equivalents.
+
+(* ... in [0, 1] for unit quaternions (so the angle is defined), and equal to 1,
+   i.e. reduced angle 0, for equivalent orientations *)
+Theorem C04_range : forall (U : list (rot (T:=R))) (O1 O2 : quat (T:=R)),
+  qnorm2 ROps O1 = 1 -> qnorm2 ROps O2 = 1 -> (forall s, In s U -> qnorm2 ROps (fst s) = 1) ->
+  0 <= code_dot ROps U O1 O2 <= 1.
+Proof. exact code_dot_range. Qed.
+Print Assumptions C04_range.
+
+Theorem C04_zero_for_equivalents : forall (U : list (rot (T:=R))) (g O1 : quat (T:=R)),
+  In (g, false) U -> qnorm2 ROps g = 1 -> qnorm2 ROps O1 = 1 ->
+  (forall s, In s U -> qnorm2 ROps (fst s) = 1) ->
+  code_dot ROps U O1 (qmul ROps g O1) = 1.
+Proof.
+  intros U g O1 Hin Hg HO HU. apply Rle_antisym.
+  - apply code_dot_range; auto. rewrite qnorm2_mul, Hg, HO. ring.
+  - apply left_equivalent_zero_angle; assumption.
+Qed.
+Print Assumptions C04_zero_for_equivalents.
+
+(* all of this for every one of the 38 named point groups as orix has them:
+   Orientation.dot with symmetry G is symmetric and invariant under replacing
+   either orientation by x*O for any proper operation x of G -- ALL orientations *)
+Theorem C04_named_groups_symmetric_invariant : forall g, In g groups ->
+  let G := map rtoR (g_elems g) in
+  (forall O1 O2, code_dot ROps G O1 O2 = code_dot ROps G O2 O1) /\
+  (forall x O1 O2, In x G -> snd x = false ->
+     code_dot ROps G (qmul ROps (fst x) O1) O2 = code_dot ROps G O1 O2 /\
+     code_dot ROps G O1 (qmul ROps (fst x) O2) = code_dot ROps G O1 O2).
+Proof.
+  intros g Hg G. split.
+  - intros; apply named_group_dot_symmetric; exact Hg.
+  - intros; apply named_group_dot_invariant; assumption.
+Qed.
+Print Assumptions C04_named_groups_symmetric_invariant.
 
 Example C04_nonvacuous : exists g h, In g groups /\ In h groups /\ g_name g <> g_name h.
 Proof.
